@@ -1,4 +1,4 @@
-\* thorough tier: collections of <= 4 identifiers over 3 heads x 6 numbers
+\* thorough tier: collections of <= 4 identifiers over 3 heads (none, a_, a1_) x 6 numbers
 \* the algorithm of the code ("%04d") on identifiers already printed as %04d, all orders, duplicates
 SPECIFICATION Spec
 CONSTANTS
